@@ -12,9 +12,14 @@ decoder: the CUE scanner's string lexing (`scanStringTok`) + `literal.Unquote`
 `SetString` (an error rejects the literal) + unary minus = `decodeNumber`;
 encoder: Go's `appendString` without HTML escaping = `jsonEscape`, apd's 'G' format = `fmtG`.
 
-Arrays/objects, key order, duplicate keys and nesting are NOT modelled (the CUE parser and
-evaluator are involved): they are the executable predicates of harness/c10_doc.go, evaluated
-on the implementation against Go's encoding/json as ground truth.
+Documents, encoder direction (session 3): `Value.appendJSON` / `listAppendJSON` /
+`structValue.appendJSON` are transcribed in CueVerif/Model/JsonDoc.lean (`appendJSON` over value
+trees `MVal`), RFC 8259 §2–§5 is written as a reference parser in CueVerif/Spec/JsonDoc.lean
+(`parseJSON`, data = `JVal`), and `C10_document_out` proves `parseJSON (appendJSON v) = dataOf v`
+for every finite tree.  The DECODER direction above the token layer (the CUE parser, PatchExpr's
+relabelling, the evaluator: member order, duplicate keys, nesting limits) is NOT modelled: it
+stays with the executable predicates of harness/c10_doc.go, evaluated on the implementation
+against Go's encoding/json as ground truth.
 
 Three statements are FALSE on the unchanged tree; each is kept as `…_stmt`, refuted on a
 witness that the harness replays on the implementation, and proved with the excluded region as
@@ -27,6 +32,9 @@ hypothesis:
     excluded from the property by `wellPaired`).
 -/
 import CueVerif.Proofs.JsonProps
+import CueVerif.Proofs.JsonDocProps
+import CueVerif.Proofs.JsonDocStream
+import CueVerif.Proofs.JsonDocFuel
 namespace CueVerif.C10
 open CueVerif CueVerif.Quote CueVerif.Json
 
@@ -168,5 +176,100 @@ theorem C10_number_roundtrip (neg : Bool) (coeff : Nat) (exp : Int) :
       (n.inApdRange → decodeNumber (fmtG neg coeff exp) =
         some (n.kind, .finite (neg && coeff != 0) coeff exp)) :=
   number_roundtrip neg coeff exp
+
+/-! ### encoder: whole documents -/
+
+/-- `C10_document_out`: for EVERY finite concrete value tree (any depth, any width; null,
+booleans, finite decimals, valid-UTF-8 strings, lists, structs with valid-UTF-8 labels) the text
+written by `Value.appendJSON` is a JSON text in the sense of RFC 8259 and the reference parser
+reads it back as exactly the data of the value: elements in list order, members in field order
+with their names byte for byte, strings byte for byte, numbers as the exact decimal (sign,
+coefficient, exponent), no trailing comma, nothing left over. -/
+theorem C10_document_out (v : MVal) (hwf : v.WF) : parseJSON (appendJSON v) = some (dataOf v) :=
+  doc_roundtrip v hwf
+
+-- non-vacuity: the tree of `{"a":[1,-2.50,"&\n<DEL>",null,[]],"":{"<":true}}`: nested list and struct, an
+-- empty label, a label that HTML escaping would touch, a negative decimal with a trailing zero
+example : parseJSON (appendJSON (.struct [([0x61], .list [.num false 1 0, .num true 250 (-2),
+        .str [0x26, 10, 0x7F], .null, .list []]), ([], .struct [([0x3C], .bool true)])])) =
+    some (dataOf (.struct [([0x61], .list [.num false 1 0, .num true 250 (-2),
+        .str [0x26, 10, 0x7F], .null, .list []]), ([], .struct [([0x3C], .bool true)])])) :=
+  C10_document_out _ (by simp [MVal.WF, MVal.WFList, MVal.WFFields, IsBytes, validUTF8, decodeFirst])
+
+/-- the same in front of any text that cannot continue a number token (`,` `]` `}` ws, the next
+document of a stream): the value is read and the rest is left untouched — the encoder's output
+is self-delimiting. -/
+theorem C10_document_out_prefix (v : MVal) (hwf : v.WF) (rest : Bytes) (hs : numStop rest = true) :
+    pValue ((appendJSON v ++ rest).length + 1) (appendJSON v ++ rest) = some (dataOf v, rest) :=
+  doc_prefix v hwf rest hs
+
+example : pValue ((appendJSON (.list [.num false 0 0]) ++ [0x20, 0x31]).length + 1)
+    (appendJSON (.list [.num false 0 0]) ++ [0x20, 0x31]) = some (dataOf (.list [.num false 0 0]), [0x20, 0x31]) :=
+  C10_document_out_prefix _ (by simp [MVal.WF, MVal.WFList]) _ (by decide)
+
+/-- `C10_number_out`, through the executable grammar (value round trip): for every finite
+decimal the text printed by apd's 'G' format is read by the reference parser as exactly
+`(-1)^neg * coeff * 10^exp` — incl. negative zero, trailing zeros, exponents of any size. -/
+theorem C10_number_out_parsed (neg : Bool) (coeff : Nat) (exp : Int) :
+    parseJSON (fmtG neg coeff exp) = some (.num neg coeff exp) :=
+  number_out_parsed neg coeff exp
+
+/-- `C10_string_out`, through the executable grammar -/
+theorem C10_string_out_parsed (s : Bytes) (hb : IsBytes s) (hv : validUTF8 s = true) :
+    parseJSON (jsonEscape s) = some (.str s) :=
+  string_out_parsed s hb hv
+
+/-- Fuel, half one (all texts): more fuel never changes an answer of the reference parser — a
+value read with fuel `f` is read identically with every `g ≥ f`. -/
+theorem C10_parse_fuel_mono (f g : Nat) (hfg : f ≤ g) (s : Bytes) (x : JVal × Bytes)
+    (h : pValue f s = some x) : pValue g s = some x :=
+  pValue_mono_le f g hfg s x h
+
+-- non-vacuity: `[[1]]` read with fuel 6 is read the same with fuel 40
+example : pValue 40 [0x5B, 0x5B, 0x31, 0x5D, 0x5D] = some (.arr [.arr [.num false 1 0]], []) :=
+  C10_parse_fuel_mono 6 40 (by decide) _ _ (by rfl)
+
+/-- Fuel, half two, on ARBITRARY texts: fuel above the length of the text is always enough (an
+answer obtained with any fuel is already obtained with `length + 1`).  Believed true (every level
+of the recursion consumes a byte before it recurses); proved so far only for the texts the
+encoder writes, where it is part of `C10_document_out` / `C10_document_out_prefix` (`parseJSON`
+runs with fuel `length + 1`).  The spec parser is additionally compared with Go's encoding/json on every
+run (op `docdata`). -/
+-- OPEN
+def C10_parse_fuel_stmt : Prop :=
+  ∀ (s : Bytes) (f : Nat) (v : JVal) (r : Bytes), pValue f s = some (v, r) →
+    ∀ g, s.length < g → pValue g s = some (v, r)
+
+/-! ### streams (the framing `Decoder.Extract` gets from json.Decoder: `parseStream`) -/
+
+/-- `C10_stream_out`: what `MarshalStream` writes for n values (each marshalled value followed
+by a newline) is framed as exactly those n values, in order, followed by a clean end of input
+(`io.EOF`) — no value lost, split, merged or invented, for any n and any finite value trees. -/
+theorem C10_stream_out (vs : List MVal) (hwf : ∀ v ∈ vs, v.WF) :
+    parseStream (vs.length + 1) (marshalStream vs) = (vs.map dataOf, true) :=
+  stream_roundtrip vs hwf
+
+example : parseStream 3 (marshalStream [.num true 0 0, .list [.str [0x61]]]) =
+    ([dataOf (.num true 0 0), dataOf (.list [.str [0x61]])], true) :=
+  C10_stream_out _ (by simp [MVal.WF, MVal.WFList, IsBytes, validUTF8, decodeFirst])
+
+/-- `C10_stream_prefix`: n marshalled values with arbitrary non-empty white-space separators
+(after any leading white space) in front of ANY tail: the stream yields exactly those n values in
+order and then continues as the tail alone would — with an empty tail a clean end, with trailing
+garbage the error comes after the valid prefix, never instead of it. -/
+theorem C10_stream_prefix (l : List (MVal × Bytes))
+    (hwf : ∀ p ∈ l, p.1.WF ∧ p.2 ≠ [] ∧ p.2.all isWs = true) (pre tail : Bytes)
+    (hpre : pre.all isWs = true) (fuel : Nat) :
+    parseStream (l.length + fuel) (pre ++ (streamText l ++ tail)) =
+      ((l.map fun p => dataOf p.1) ++ (parseStream fuel tail).1, (parseStream fuel tail).2) :=
+  stream_prefix tail fuel l hwf pre hpre
+
+-- non-vacuity: ` 1\n[]\t x`: two values, then the error for the garbage `x`
+example : parseStream (2 + 1) ([0x20] ++ (streamText [(.num false 1 0, [0x0A]), (.list [], [0x09, 0x20])] ++ [0x78])) =
+    ([dataOf (.num false 1 0), dataOf (.list [])] ++ (parseStream 1 [0x78]).1, (parseStream 1 [0x78]).2) :=
+  C10_stream_prefix _ (by
+    intro p hp
+    simp only [List.mem_cons, List.mem_nil_iff, or_false] at hp
+    rcases hp with rfl | rfl <;> simp [MVal.WF, MVal.WFList, isWs]) _ _ (by simp [isWs]) 1
 
 end CueVerif.C10
